@@ -232,6 +232,7 @@ Proof.
   - apply Same; [intro; reflexivity|reflexivity].
   - apply Same; [intro; reflexivity|reflexivity].
   - apply bytes_ok_same with c; [unfold c_mgmtcap; destruct (max_int <? u)%N; reflexivity|unfold c_mgmtcap; destruct (max_int <? u)%N; simpl; unfold adv_of; simpl; lia|intro; reflexivity|exact B].
+  - apply Same; [intro; reflexivity|reflexivity].
 Qed.
 
 (* for every history: entries have distinct names, the cache clock is the history's clock, and each cached entry carries
